@@ -29,7 +29,8 @@
      kh_binds, collision-freeness    cryptographic, stated on the finite world / on the one pair. *)
 From Verif Require Import Exec Ser Spend Ast Types TypeCheck SatSpec Sat LiftModel LiftLimits TheoremA SatProofs FrameDissat
   CompleteThresh CompleteNonMall DenotSpec LiftFullProofs CodecSpec.
-From Verif Require Import LiftDescWsh LiftDescWorld LiftDescExamples.
+From Verif Require Import DescSpendModel LiftDescWsh LiftDescWorld LiftDescTypes LiftDescWorldTypes LiftDescExamples.
+From Verif Require SerProofs.
 From Verif Require CodecExt ExtModel ExtProofs ExtCodec.
 Local Open Scope N_scope.
 
@@ -107,3 +108,303 @@ Proof. exact dx_verify. Qed.
 (* hence, by the theorem, in the world without signatures NO witness over its material spends *)
 Example C07_wsh_false_world_unspendable : ~ wsh_spendable dx_e dx_ke dx_W0 dx_m.
 Proof. exact dx_unspendable. Qed.
+
+(* ================================================================================================
+   The other script-bearing output types and the dispatcher verify_spend (Proofs/LiftDescTypes.v,
+   LiftDescWorldTypes.v).  Same composition; the limits each validation applies are DERIVED from the
+   computed verdict of lift_ctx in the output type's context, except where the library has no figure:
+     * P2SH: 520-byte redeem script and 201 opcodes derived; the 1650-byte scriptSig rule is a
+       HYPOTHESIS -- Legacy::check_local_policy_validity bounds max_script_sig_size, which counts the
+       satisfaction items and not the push of the redeem script that Sh::get_satisfaction appends, so the
+       verdict does not imply Core's rule on the whole scriptSig (notes/C07.md);
+     * bare: 10000 bytes and 201 opcodes derived; the Bare context has no scriptSig rule: hypothesis;
+     * P2TR script path: 1000 items derived (max_witness_stack_count + max_exec_stack_count <= 1000),
+       520-byte items from the material's sizes; the BIP341 commitment is the oracle commit_ok (C15).
+   [material_all P ke A]: every key of the table, every signature and every preimage held satisfies P. *)
+Local Notation sbytes := SerProofs.is_bytes.
+
+Theorem C07_shwsh_invents_no_path_within_limits :
+  forall (e : env) (ke : keyenv), ksort_ok ke -> (forall kbs, e_sigok e kbs [] = false) ->
+  forall (A : assets) (se : senv) (f : fill), linked ke A se f -> locks_compatible se ->
+  forall (unc : key -> bool) (rhs : bool) (m : ms) (t : ty) (p : lpolicy),
+    type_of m = ROk t -> c_base (t_corr t) = BB ->
+    assets_ok (with_sv e SvWitnessV0) ke A -> wf (with_sv e SvWitnessV0) ke m -> ms_wf Segwitv0 ke m ->
+    ExtCodec.ctx_frag_ok Segwitv0 m = true -> unc_agrees ke unc ->
+    ExtProofs.senv_ok (ExtCodec.xctx_of Segwitv0 ke) se -> thresh_fit ke se rhs m -> small_material ke A 80 ->
+    lift_ctx Segwitv0 unc m = LOk p -> leval A p = true ->
+    blen (e_sha256 e (encode ke m)) = 32 ->
+    exists bs, satisfy ke se f true rhs m = Some bs /\
+      verify_sh e (e_hash160 e (spk_wsh e (encode ke m))) (ssig_shwsh e (encode ke m)) (bs ++ [encode ke m]) = true.
+Proof. exact shwsh_invents_no_path. Qed.
+Print Assumptions C07_shwsh_invents_no_path_within_limits.
+
+Theorem C07_wsh_dispatch_invents_no_path :
+  forall (e : env) (ke : keyenv), ksort_ok ke -> (forall kbs, e_sigok e kbs [] = false) ->
+  forall (A : assets) (se : senv) (f : fill), linked ke A se f -> locks_compatible se ->
+  forall (unc : key -> bool) (rhs : bool) (m : ms) (t : ty) (p : lpolicy),
+    type_of m = ROk t -> c_base (t_corr t) = BB ->
+    assets_ok (with_sv e SvWitnessV0) ke A -> wf (with_sv e SvWitnessV0) ke m -> ms_wf Segwitv0 ke m ->
+    ExtCodec.ctx_frag_ok Segwitv0 m = true -> unc_agrees ke unc ->
+    ExtProofs.senv_ok (ExtCodec.xctx_of Segwitv0 ke) se -> thresh_fit ke se rhs m -> small_material ke A 80 ->
+    lift_ctx Segwitv0 unc m = LOk p -> leval A p = true ->
+  forall commit_ok : bytes -> bytes -> bool,
+    blen (e_sha256 e (encode ke m)) = 32 ->
+    exists bs, satisfy ke se f true rhs m = Some bs /\
+      verify_spend e commit_ok (spk_wsh e (encode ke m)) [] (bs ++ [encode ke m]) = true.
+Proof. exact wsh_dispatch_invents. Qed.
+Print Assumptions C07_wsh_dispatch_invents_no_path.
+
+Theorem C07_shwsh_dispatch_invents_no_path :
+  forall (e : env) (ke : keyenv), ksort_ok ke -> (forall kbs, e_sigok e kbs [] = false) ->
+  forall (A : assets) (se : senv) (f : fill), linked ke A se f -> locks_compatible se ->
+  forall (unc : key -> bool) (rhs : bool) (m : ms) (t : ty) (p : lpolicy),
+    type_of m = ROk t -> c_base (t_corr t) = BB ->
+    assets_ok (with_sv e SvWitnessV0) ke A -> wf (with_sv e SvWitnessV0) ke m -> ms_wf Segwitv0 ke m ->
+    ExtCodec.ctx_frag_ok Segwitv0 m = true -> unc_agrees ke unc ->
+    ExtProofs.senv_ok (ExtCodec.xctx_of Segwitv0 ke) se -> thresh_fit ke se rhs m -> small_material ke A 80 ->
+    lift_ctx Segwitv0 unc m = LOk p -> leval A p = true ->
+  forall commit_ok : bytes -> bytes -> bool,
+    blen (e_sha256 e (encode ke m)) = 32 -> blen (e_hash160 e (spk_wsh e (encode ke m))) = 20 ->
+    exists bs, satisfy ke se f true rhs m = Some bs /\
+      verify_spend e commit_ok (spk_shwsh e (encode ke m)) (ssig_shwsh e (encode ke m)) (bs ++ [encode ke m]) = true.
+Proof. exact shwsh_dispatch_invents. Qed.
+Print Assumptions C07_shwsh_dispatch_invents_no_path.
+
+Theorem C07_sh_invents_no_path_partial :
+  forall (e : env) (ke : keyenv), ksort_ok ke -> (forall kbs, e_sigok e kbs [] = false) ->
+  forall (A : assets) (se : senv) (f : fill), linked ke A se f -> locks_compatible se ->
+  forall (unc : key -> bool) (rhs : bool) (m : ms) (t : ty) (p : lpolicy),
+    type_of m = ROk t -> c_base (t_corr t) = BB ->
+    assets_ok (with_sv e SvBase) ke A -> wf (with_sv e SvBase) ke m ->
+    unc_agrees ke unc -> thresh_fit ke se rhs m ->
+    material_all sbytes ke A -> material_all (fun b => blen b < 73) ke A ->
+    leval A p = true ->
+    ms_wf Legacy ke m -> ExtCodec.ctx_frag_ok Legacy m = true ->
+    ExtProofs.senv_ok (ExtCodec.xctx_of Legacy ke) se -> sbytes (encode ke m) ->
+    lift_ctx Legacy unc m = LOk p ->
+    (forall bs ss, satisfy ke se f true rhs m = Some bs ->
+                   witness_to_scriptsig (bs ++ [encode ke m]) = Some ss -> blen (serialize ss) <= 1650) ->
+    exists bs ss, satisfy ke se f true rhs m = Some bs /\ witness_to_scriptsig (bs ++ [encode ke m]) = Some ss /\
+      verify_sh e (e_hash160 e (encode ke m)) (serialize ss) [] = true.
+Proof. exact sh_invents_no_path. Qed.
+Print Assumptions C07_sh_invents_no_path_partial.
+
+Theorem C07_sh_dispatch_invents_no_path_partial :
+  forall (e : env) (ke : keyenv), ksort_ok ke -> (forall kbs, e_sigok e kbs [] = false) ->
+  forall (A : assets) (se : senv) (f : fill), linked ke A se f -> locks_compatible se ->
+  forall (unc : key -> bool) (rhs : bool) (m : ms) (t : ty) (p : lpolicy),
+    type_of m = ROk t -> c_base (t_corr t) = BB ->
+    assets_ok (with_sv e SvBase) ke A -> wf (with_sv e SvBase) ke m ->
+    unc_agrees ke unc -> thresh_fit ke se rhs m ->
+    material_all sbytes ke A -> material_all (fun b => blen b < 73) ke A ->
+    leval A p = true ->
+  forall commit_ok : bytes -> bytes -> bool,
+    ms_wf Legacy ke m -> ExtCodec.ctx_frag_ok Legacy m = true ->
+    ExtProofs.senv_ok (ExtCodec.xctx_of Legacy ke) se -> sbytes (encode ke m) ->
+    blen (e_hash160 e (encode ke m)) = 20 ->
+    lift_ctx Legacy unc m = LOk p ->
+    (forall bs ss, satisfy ke se f true rhs m = Some bs ->
+                   witness_to_scriptsig (bs ++ [encode ke m]) = Some ss -> blen (serialize ss) <= 1650) ->
+    exists bs ss, satisfy ke se f true rhs m = Some bs /\ witness_to_scriptsig (bs ++ [encode ke m]) = Some ss /\
+      verify_spend e commit_ok (spk_sh e (encode ke m)) (serialize ss) [] = true.
+Proof. exact sh_dispatch_invents. Qed.
+Print Assumptions C07_sh_dispatch_invents_no_path_partial.
+
+Theorem C07_bare_invents_no_path_partial :
+  forall (e : env) (ke : keyenv), ksort_ok ke -> (forall kbs, e_sigok e kbs [] = false) ->
+  forall (A : assets) (se : senv) (f : fill), linked ke A se f -> locks_compatible se ->
+  forall (unc : key -> bool) (rhs : bool) (m : ms) (t : ty) (p : lpolicy),
+    type_of m = ROk t -> c_base (t_corr t) = BB ->
+    assets_ok (with_sv e SvBase) ke A -> wf (with_sv e SvBase) ke m ->
+    unc_agrees ke unc -> thresh_fit ke se rhs m ->
+    material_all sbytes ke A -> material_all (fun b => blen b < 73) ke A ->
+    leval A p = true ->
+    ms_wf Bare ke m -> ExtCodec.ctx_frag_ok Bare m = true ->
+    ExtProofs.senv_ok (ExtCodec.xctx_of Bare ke) se ->
+    lift_ctx Bare unc m = LOk p ->
+    (forall bs ss, satisfy ke se f true rhs m = Some bs ->
+                   witness_to_scriptsig bs = Some ss -> blen (serialize ss) <= 1650) ->
+    exists bs ss, satisfy ke se f true rhs m = Some bs /\ witness_to_scriptsig bs = Some ss /\
+      verify_bare e (encode ke m) (serialize ss) [] = true.
+Proof. exact bare_invents_no_path. Qed.
+Print Assumptions C07_bare_invents_no_path_partial.
+
+Theorem C07_tr_invents_no_path_within_limits :
+  forall (e : env) (ke : keyenv), ksort_ok ke -> (forall kbs, e_sigok e kbs [] = false) ->
+  forall (A : assets) (se : senv) (f : fill), linked ke A se f -> locks_compatible se ->
+  forall (unc : key -> bool) (rhs : bool) (m : ms) (t : ty) (p : lpolicy),
+    type_of m = ROk t -> c_base (t_corr t) = BB ->
+    assets_ok (with_sv e SvTapscript) ke A -> wf (with_sv e SvTapscript) ke m -> ms_wf Tap ke m ->
+    ExtCodec.ctx_frag_ok Tap m = true -> unc_agrees ke unc ->
+    ExtProofs.senv_ok (ExtCodec.xctx_of Tap ke) se -> thresh_fit ke se rhs m -> small_material ke A 520 ->
+    lift_ctx Tap unc m = LOk p -> leval A p = true ->
+  forall (commit_ok : bytes -> bytes -> bool) (outkey cb : bytes),
+    commit_ok (encode ke m) cb = true -> not_annex cb ->
+    exists bs, satisfy ke se f true rhs m = Some bs /\
+      verify_tr e outkey commit_ok [] (bs ++ [encode ke m; cb]) = true.
+Proof. exact tr_invents_no_path. Qed.
+Print Assumptions C07_tr_invents_no_path_within_limits.
+
+Theorem C07_tr_dispatch_invents_no_path :
+  forall (e : env) (ke : keyenv), ksort_ok ke -> (forall kbs, e_sigok e kbs [] = false) ->
+  forall (A : assets) (se : senv) (f : fill), linked ke A se f -> locks_compatible se ->
+  forall (unc : key -> bool) (rhs : bool) (m : ms) (t : ty) (p : lpolicy),
+    type_of m = ROk t -> c_base (t_corr t) = BB ->
+    assets_ok (with_sv e SvTapscript) ke A -> wf (with_sv e SvTapscript) ke m -> ms_wf Tap ke m ->
+    ExtCodec.ctx_frag_ok Tap m = true -> unc_agrees ke unc ->
+    ExtProofs.senv_ok (ExtCodec.xctx_of Tap ke) se -> thresh_fit ke se rhs m -> small_material ke A 520 ->
+    lift_ctx Tap unc m = LOk p -> leval A p = true ->
+  forall (commit_ok : bytes -> bytes -> bool) (outkey cb : bytes),
+    blen outkey = 32 -> commit_ok (encode ke m) cb = true -> not_annex cb ->
+    exists bs, satisfy ke se f true rhs m = Some bs /\
+      verify_spend e commit_ok (spk_tr outkey) [] (bs ++ [encode ke m; cb]) = true.
+Proof. exact tr_dispatch_invents. Qed.
+Print Assumptions C07_tr_dispatch_invents_no_path.
+
+(* ---- (<=) ---- *)
+Theorem C07_shwsh_hides_no_path :
+  forall (e : env) (ke : keyenv), ksort_ok ke -> (forall kbs, e_sigok e kbs [] = false) ->
+  forall (W : wit) (rl : bool) (m : ms) (t : ty) (p : lpolicy),
+    type_of m = ROk t -> c_base (t_corr t) = BB -> lift rl m = Some p ->
+    kh_binds (with_sv e SvWitnessV0) ke W -> wf (with_sv e SvWitnessV0) ke m -> ms_wf Segwitv0 ke m ->
+    blen (e_sha256 e (encode ke m)) = 32 ->
+    (forall rb, e_hash160 e rb = e_hash160 e (spk_wsh e (encode ke m)) -> rb = spk_wsh e (encode ke m)) ->
+    forall (ssig : bytes) (items : list bytes) (sb' : bytes),
+      (e_sha256 e sb' = e_sha256 e (encode ke m) -> sb' = encode ke m) -> incl items W ->
+      verify_sh e (e_hash160 e (spk_wsh e (encode ke m))) ssig (items ++ [sb']) = true ->
+      leval (assets_of (with_sv e SvWitnessV0) ke W) p = true.
+Proof. exact shwsh_hides_no_path. Qed.
+Print Assumptions C07_shwsh_hides_no_path.
+
+Theorem C07_sh_hides_no_path :
+  forall (e : env) (ke : keyenv), ksort_ok ke -> (forall kbs, e_sigok e kbs [] = false) ->
+  forall (W : wit) (rl : bool) (m : ms) (t : ty) (p : lpolicy),
+    type_of m = ROk t -> c_base (t_corr t) = BB -> lift rl m = Some p ->
+    kh_binds (with_sv e SvBase) ke W -> wf (with_sv e SvBase) ke m -> ms_wf Legacy ke m ->
+    (forall rb, e_hash160 e rb = e_hash160 e (encode ke m) -> rb = encode ke m) ->
+    forall ssig : bytes,
+      (forall ss rb st, parse_script ssig = Some ss -> pushonly_stack ss [] = Some (rb :: st) -> incl st W) ->
+      verify_sh e (e_hash160 e (encode ke m)) ssig [] = true ->
+      leval (assets_of (with_sv e SvBase) ke W) p = true.
+Proof. exact sh_hides_no_path. Qed.
+Print Assumptions C07_sh_hides_no_path.
+
+Theorem C07_bare_hides_no_path :
+  forall (e : env) (ke : keyenv), ksort_ok ke -> (forall kbs, e_sigok e kbs [] = false) ->
+  forall (W : wit) (rl : bool) (m : ms) (t : ty) (p : lpolicy),
+    type_of m = ROk t -> c_base (t_corr t) = BB -> lift rl m = Some p ->
+    kh_binds (with_sv e SvBase) ke W -> wf (with_sv e SvBase) ke m -> ms_wf Bare ke m ->
+    forall (ssig : bytes) (witness : list bytes),
+      (forall ss st, parse_script ssig = Some ss -> pushonly_stack ss [] = Some st -> incl st W) ->
+      verify_bare e (encode ke m) ssig witness = true ->
+      leval (assets_of (with_sv e SvBase) ke W) p = true.
+Proof. exact bare_hides_no_path. Qed.
+Print Assumptions C07_bare_hides_no_path.
+
+Theorem C07_tr_hides_no_path :
+  forall (e : env) (ke : keyenv), ksort_ok ke -> (forall kbs, e_sigok e kbs [] = false) ->
+  forall (W : wit) (rl : bool) (m : ms) (t : ty) (p : lpolicy),
+    type_of m = ROk t -> c_base (t_corr t) = BB -> lift rl m = Some p ->
+  forall (commit_ok : bytes -> bytes -> bool) (outkey : bytes),
+    kh_binds (with_sv e SvTapscript) ke W -> wf (with_sv e SvTapscript) ke m -> ms_wf Tap ke m ->
+    forall (ssig : bytes) (items : list bytes) (sb' cb : bytes),
+      (commit_ok sb' cb = true -> sb' = encode ke m) -> incl items W ->
+      verify_tr e outkey commit_ok ssig (items ++ [sb'; cb]) = true ->
+      leval (assets_of (with_sv e SvTapscript) ke W) p = true.
+Proof. exact tr_hides_no_path. Qed.
+Print Assumptions C07_tr_hides_no_path.
+
+Theorem C07_wsh_dispatch_hides_no_path :
+  forall (e : env) (ke : keyenv), ksort_ok ke -> (forall kbs, e_sigok e kbs [] = false) ->
+  forall (W : wit) (rl : bool) (m : ms) (t : ty) (p : lpolicy),
+    type_of m = ROk t -> c_base (t_corr t) = BB -> lift rl m = Some p ->
+  forall commit_ok : bytes -> bytes -> bool,
+    kh_binds (with_sv e SvWitnessV0) ke W -> wf (with_sv e SvWitnessV0) ke m -> ms_wf Segwitv0 ke m ->
+    blen (e_sha256 e (encode ke m)) = 32 ->
+    forall (ssig : bytes) (items : list bytes) (sb' : bytes),
+      (e_sha256 e sb' = e_sha256 e (encode ke m) -> sb' = encode ke m) -> incl items W ->
+      verify_spend e commit_ok (spk_wsh e (encode ke m)) ssig (items ++ [sb']) = true ->
+      leval (assets_of (with_sv e SvWitnessV0) ke W) p = true.
+Proof. exact wsh_dispatch_hides. Qed.
+Print Assumptions C07_wsh_dispatch_hides_no_path.
+
+Theorem C07_shwsh_dispatch_hides_no_path :
+  forall (e : env) (ke : keyenv), ksort_ok ke -> (forall kbs, e_sigok e kbs [] = false) ->
+  forall (W : wit) (rl : bool) (m : ms) (t : ty) (p : lpolicy),
+    type_of m = ROk t -> c_base (t_corr t) = BB -> lift rl m = Some p ->
+  forall commit_ok : bytes -> bytes -> bool,
+    kh_binds (with_sv e SvWitnessV0) ke W -> wf (with_sv e SvWitnessV0) ke m -> ms_wf Segwitv0 ke m ->
+    blen (e_sha256 e (encode ke m)) = 32 -> blen (e_hash160 e (spk_wsh e (encode ke m))) = 20 ->
+    (forall rb, e_hash160 e rb = e_hash160 e (spk_wsh e (encode ke m)) -> rb = spk_wsh e (encode ke m)) ->
+    forall (ssig : bytes) (items : list bytes) (sb' : bytes),
+      (e_sha256 e sb' = e_sha256 e (encode ke m) -> sb' = encode ke m) -> incl items W ->
+      verify_spend e commit_ok (spk_shwsh e (encode ke m)) ssig (items ++ [sb']) = true ->
+      leval (assets_of (with_sv e SvWitnessV0) ke W) p = true.
+Proof. exact shwsh_dispatch_hides. Qed.
+Print Assumptions C07_shwsh_dispatch_hides_no_path.
+
+Theorem C07_sh_dispatch_hides_no_path :
+  forall (e : env) (ke : keyenv), ksort_ok ke -> (forall kbs, e_sigok e kbs [] = false) ->
+  forall (W : wit) (rl : bool) (m : ms) (t : ty) (p : lpolicy),
+    type_of m = ROk t -> c_base (t_corr t) = BB -> lift rl m = Some p ->
+  forall commit_ok : bytes -> bytes -> bool,
+    kh_binds (with_sv e SvBase) ke W -> wf (with_sv e SvBase) ke m -> ms_wf Legacy ke m ->
+    blen (e_hash160 e (encode ke m)) = 20 ->
+    (forall rb, e_hash160 e rb = e_hash160 e (encode ke m) -> rb = encode ke m) ->
+    forall ssig : bytes,
+      (forall ss rb st, parse_script ssig = Some ss -> pushonly_stack ss [] = Some (rb :: st) -> incl st W) ->
+      verify_spend e commit_ok (spk_sh e (encode ke m)) ssig [] = true ->
+      leval (assets_of (with_sv e SvBase) ke W) p = true.
+Proof. exact sh_dispatch_hides. Qed.
+Print Assumptions C07_sh_dispatch_hides_no_path.
+
+Theorem C07_tr_dispatch_hides_no_path :
+  forall (e : env) (ke : keyenv), ksort_ok ke -> (forall kbs, e_sigok e kbs [] = false) ->
+  forall (W : wit) (rl : bool) (m : ms) (t : ty) (p : lpolicy),
+    type_of m = ROk t -> c_base (t_corr t) = BB -> lift rl m = Some p ->
+  forall (commit_ok : bytes -> bytes -> bool) (outkey : bytes),
+    kh_binds (with_sv e SvTapscript) ke W -> wf (with_sv e SvTapscript) ke m -> ms_wf Tap ke m ->
+    blen outkey = 32 ->
+    forall (ssig : bytes) (items : list bytes) (sb' cb : bytes),
+      (commit_ok sb' cb = true -> sb' = encode ke m) -> incl items W ->
+      verify_spend e commit_ok (spk_tr outkey) ssig (items ++ [sb'; cb]) = true ->
+      leval (assets_of (with_sv e SvTapscript) ke W) p = true.
+Proof. exact tr_dispatch_hides. Qed.
+Print Assumptions C07_tr_dispatch_hides_no_path.
+
+(* ---- the equivalence for a world, through the dispatcher and for P2SH-P2WSH ---- *)
+Theorem C07_wsh_dispatch_spending_condition :
+  forall (e : env) (ke : keyenv), ksort_ok ke -> (forall kbs, e_sigok e kbs [] = false) ->
+  forall (W : wit) (unc : key -> bool) (m : ms) (p : lpolicy),
+    wsh_world_ok e ke W m -> unc_agrees ke unc -> lift_ctx Segwitv0 unc m = LOk p ->
+  forall commit_ok : bytes -> bytes -> bool,
+    blen (e_sha256 e (encode ke m)) = 32 ->
+    (leval (assets_of (with_sv e SvWitnessV0) ke W) p = true <->
+     exists items sb', incl items W /\ verify_spend e commit_ok (spk_wsh e (encode ke m)) [] (items ++ [sb']) = true).
+Proof. exact wsh_dispatch_spending_condition. Qed.
+Print Assumptions C07_wsh_dispatch_spending_condition.
+
+Theorem C07_shwsh_spending_condition :
+  forall (e : env) (ke : keyenv), ksort_ok ke -> (forall kbs, e_sigok e kbs [] = false) ->
+  forall (W : wit) (unc : key -> bool) (m : ms) (p : lpolicy),
+    wsh_world_ok e ke W m -> unc_agrees ke unc -> lift_ctx Segwitv0 unc m = LOk p ->
+    blen (e_sha256 e (encode ke m)) = 32 ->
+    (forall rb, e_hash160 e rb = e_hash160 e (spk_wsh e (encode ke m)) -> rb = spk_wsh e (encode ke m)) ->
+    (leval (assets_of (with_sv e SvWitnessV0) ke W) p = true <->
+     exists ssig items sb', incl items W /\
+       verify_sh e (e_hash160 e (spk_wsh e (encode ke m))) ssig (items ++ [sb']) = true).
+Proof. exact shwsh_spending_condition. Qed.
+Print Assumptions C07_shwsh_spending_condition.
+
+Theorem C07_shwsh_dispatch_spending_condition :
+  forall (e : env) (ke : keyenv), ksort_ok ke -> (forall kbs, e_sigok e kbs [] = false) ->
+  forall (W : wit) (unc : key -> bool) (m : ms) (p : lpolicy),
+    wsh_world_ok e ke W m -> unc_agrees ke unc -> lift_ctx Segwitv0 unc m = LOk p ->
+  forall commit_ok : bytes -> bytes -> bool,
+    blen (e_sha256 e (encode ke m)) = 32 -> blen (e_hash160 e (spk_wsh e (encode ke m))) = 20 ->
+    (forall rb, e_hash160 e rb = e_hash160 e (spk_wsh e (encode ke m)) -> rb = spk_wsh e (encode ke m)) ->
+    (leval (assets_of (with_sv e SvWitnessV0) ke W) p = true <->
+     exists ssig items sb', incl items W /\
+       verify_spend e commit_ok (spk_shwsh e (encode ke m)) ssig (items ++ [sb']) = true).
+Proof. exact shwsh_dispatch_spending_condition. Qed.
+Print Assumptions C07_shwsh_dispatch_spending_condition.
